@@ -120,6 +120,7 @@ class Spec:
                 o.witness(c, E)
         i = c.choose([guard_of(o, c, E) for o in outs], 'outcome:' + short)
         o = outs[i]
+        c.event('outcome:' + short.split('.')[-1], o.label)
         self.havoc(c, E, o)
         if o.kind == 'raise':
             res = VExc(o.exc)
@@ -137,6 +138,7 @@ class Spec:
 class Registry:
     def __init__(self):
         self.specs = {}          # func qual -> Spec (used at call sites and for verification)
+        self.variants = {}       # 'func#label' -> Spec (verification only)
         self.inline = set()
         self.prim_classes = set()
         self.overrides = {}      # (module, name) -> Value
@@ -191,7 +193,7 @@ def verify_function(reg, spec, interp=None):
     all_vcs = []
     t0 = time.time()
     for case in spec.cases:
-        ex = Explorer(reg, spec.func + ('' if case is None else '[%s]' % case),
+        ex = Explorer(reg, getattr(spec, 'key', spec.func) + ('' if case is None else '[%s]' % case),
                       max_paths=spec.max_paths)
         _verify_case(reg, spec, interp, res, m, fn, ex, case)
         all_vcs.extend(ex.vcs)
